@@ -4,6 +4,7 @@ package revision
 
 import (
 	"fmt"
+	"time"
 
 	rhp2 "go.sia.tech/core/rhp/v2"
 	rhp3 "go.sia.tech/core/rhp/v3"
@@ -105,6 +106,7 @@ func (s st) rhp2Settings() rhp2.HostSettings {
 		AcceptingContracts: true,
 		WindowSize:         s.WS, MaxDuration: s.MD, Address: addrOf(s.Addr),
 		ContractPrice: s.CP, MaxCollateral: s.MC, StoragePrice: s.SP, Collateral: s.Col, BaseRPCPrice: s.B,
+		SectorAccessPrice: s.RC, EphemeralAccountExpiry: time.Hour, MaxEphemeralAccountBalance: cur(sub(two128, bi(1))),
 	}
 }
 
@@ -112,6 +114,7 @@ func (s st) rhp3PriceTable(height uint64) rhp3.HostPriceTable {
 	return rhp3.HostPriceTable{
 		HostBlockHeight: height, WindowSize: s.WS, MaxDuration: s.MD,
 		ContractPrice: s.CP, MaxCollateral: s.MC, WriteStoreCost: s.SP, CollateralCost: s.Col, RenewContractCost: s.RC,
+		UpdatePriceTableCost: s.B, FundAccountCost: s.B, InitBaseCost: s.B, WriteBaseCost: s.RC,
 	}
 }
 
@@ -181,11 +184,15 @@ func replayOp(tr *vhlib.Trace, p vhlib.ParsedLine) {
 		doRenew2(tr, decRev(p, "e"), decRev(p, "f"), rk, parseCur(p.Args["base"]), parseCur(p.Args["risk"]), p.U64("h"), decSt(p))
 	case "renew3":
 		doRenew3(tr, decRev(p, "e"), decRev(p, "f"), rk, parseCur(p.Args["base"]), parseCur(p.Args["risk"]), p.U64("h"), decSt(p))
+	case "s2roots", "s2read", "s2write", "s3pay", "s3fund", "s3exec":
+		doSite(tr, decSite(p))
+	case "signsites":
+		doSignSites(tr)
 	case "rpcform2":
-		doRPCForm2(tr, decRev(p, "f"), rk, p.U64("h"), p.U64("rh"), decSt(p))
+		doRPCForm2(tr, decRev(p, "f"), rk, p.U64("h"), p.U64("rh"), decSt(p), p.Int("bs"))
 	case "rpcrenew2":
-		doRPCRenew2(tr, decRev(p, "e"), decRev(p, "f"), decCurs(p, "fv"), rk, p.U64("h"), p.U64("rh"), decSt(p))
+		doRPCRenew2(tr, decRev(p, "e"), decRev(p, "f"), decCurs(p, "fv"), rk, p.U64("h"), p.U64("rh"), decSt(p), p.Int("bs"))
 	case "rpcrenew3":
-		doRPCRenew3(tr, decRev(p, "e"), decRev(p, "k"), decRev(p, "f"), rk, p.U64("h"), p.U64("rh"), decSt(p))
+		doRPCRenew3(tr, decRev(p, "e"), decRev(p, "k"), decRev(p, "f"), rk, p.U64("h"), p.U64("rh"), decSt(p), p.Int("bs"))
 	}
 }
